@@ -251,11 +251,11 @@ func init() {
 		if tier == "thorough" {
 			return []*seqProp{p, deepPhase(p, &AlphaCfg{}, append(append([]string(nil), DqCore...), Dq[4]))}
 		}
-		return append([]*seqProp{p, miniDeep(p, `{"b":{"y":1.0,"x":null},"a":[1e400]}`), scalePhase(p)}, sizePhases(p, tier, 2, false)...)
+		return append([]*seqProp{p, miniDeep(p, `{"b":{"y":1.0,"x":null},"a":[1e400]}`), scalePhase(p), stringTokenPhase(p, 4)}, sizePhases(p, tier, 2, false)...)
 	}, 240*time.Second, 25*time.Minute)
 
 	// C08 — failures return nothing and say why
-	registerSeq("C08", func(tier string) *seqProp {
+	registerSeqMulti("C08", func(tier string) []*seqProp {
 		var opts []r69.Options
 		for _, neg := range []bool{true, false} {
 			for _, am := range []bool{false, true} {
@@ -278,7 +278,7 @@ func init() {
 			p.Docs = Dq
 			p.Alpha = []*AlphaCfg{{}, a}
 		}
-		return p
+		return []*seqProp{p, presencePhase()}
 	}, 240*time.Second, 25*time.Minute)
 
 	// C13 — AllowMissingPathOnRemove
@@ -320,6 +320,24 @@ func init() {
 		if tier == "thorough" {
 			p.Alpha = []*AlphaCfg{first, {}}
 		}
+		// member names that LOOK numeric without being array indices: digits outside ASCII, exponent / hex / decimal
+		// spellings - the created parent must be an object and the name one of its members
+		oddNames := func(d *rj.Value) []r69.Op {
+			toks := []string{"\u0663", "\uff11\uff12", "1e2", "0x1", "1.0", "\u0967\u0968", "a", "0"}
+			var ops []r69.Op
+			for _, t1 := range toks {
+				ops = append(ops, r69.Op{Kind: "add", Path: "/" + t1, Value: patchValues[0], HasValue: true})
+				for _, t2 := range toks {
+					ops = append(ops, r69.Op{Kind: "add", Path: "/" + t1 + "/" + t2, Value: patchValues[0], HasValue: true},
+						r69.Op{Kind: "add", Path: "/new/" + t1 + "/" + t2, Value: patchValues[0], HasValue: true},
+						r69.Op{Kind: "add", Path: "/a/" + t1 + "/" + t2, Value: patchValues[0], HasValue: true})
+				}
+			}
+			return ops
+		}
+		odd := &seqProp{ID: "C14", Docs: []string{`{}`, `{"a":{"b":1}}`, `{"a":[]}`}, Opts: opts[:1], Depth: 2,
+			Alpha: []*AlphaCfg{{Custom: oddNames}, {Values: v1n, ReplValues: v1n, Kinds: kinds("test", "remove"), MaxFroms: 1}}, Judge: judgeC14,
+			Rule: "option on: add paths of 1..3 tokens over member names that look numeric without being indices (Arabic-Indic, Devanagari and fullwidth digits, 1e2, 0x1, 1.0) next to a and 0, then test / remove; same oracle"}
 		// indices beyond the usual small ones: padding to 255 / 256 / 300, below and beyond a 260-element array
 		bigIdx := func(d *rj.Value) []r69.Op {
 			var ops []r69.Op
@@ -340,7 +358,7 @@ func init() {
 		mini := &seqProp{ID: "C14", Docs: []string{`{"tpl":{"keep":true},"z":{},"a":[]}`}, Opts: opts[:1], Depth: 3,
 			Alpha: []*AlphaCfg{m1, {Kinds: kinds("copy", "test"), MaxFroms: 4, Values: v1n}, m1}, Judge: judgeC14,
 			Rule: "option on, DEPTH 3: add path of <= 2 tokens ; copy or test ; add path of <= 2 tokens (the second add must not rely on anything remembered from the first)"}
-		return []*seqProp{p, rev, big, mini}
+		return []*seqProp{p, rev, big, mini, odd}
 	}, 240*time.Second, 25*time.Minute)
 
 	// C15 — well-formed outputs, escaping, indentation (Apply part)
@@ -359,7 +377,8 @@ func init() {
 			`{"a":1,"a":2,"b":3}`, `{"x":{"a":1,"a":{"a":2},"b":"<"}}`,
 		}
 		vals := parseAll([]string{`"<"`, `{"&":">"}`, `null`, `[1]`})
-		a := &AlphaCfg{Values: vals, ReplValues: vals[:2]}
+		// new member names that need escaping on output: a quote and <, a backslash, a control character, U+2028
+		a := &AlphaCfg{Values: vals, ReplValues: vals[:3], NewNames: []string{`q"<`, `c\d`, "\u0001x\u2028"}}
 		p := &seqProp{ID: "C15", Docs: docs, Opts: opts, Depth: 2, Alpha: []*AlphaCfg{a}, Judge: judgeC15,
 			Rule: "EscapeHTML on/off x documents and patch values containing < > & U+2028/9 quotes backslashes control, non-BMP and lone-surrogate escapes x all sequences <= depth; " +
 				"every successful output must parse (independent reader), be UTF-8, equal the reference value, obey the escaping clause, equal the independently re-indented Apply output for 3 indent strings, " +
@@ -370,9 +389,9 @@ func init() {
 			d.Depth = 3
 			d.Alpha = []*AlphaCfg{a, {Values: vals[:2], ReplValues: vals[:1], MaxFroms: 4}, {Values: vals[:1], ReplValues: vals[:1], Kinds: kinds("test", "add", "move", "copy"), MaxFroms: 4}}
 			d.Rule = "DEPTH 3 on four documents with reduced second/third alphabets; same oracle"
-			return []*seqProp{p, &d, stringSizePhase(p, tier)}
+			return []*seqProp{p, &d, stringSizePhase(p, tier), stringTokenPhase(p, 5)}
 		}
-		return []*seqProp{p, stringSizePhase(p, tier)}
+		return []*seqProp{p, stringSizePhase(p, tier), stringTokenPhase(p, 4)}
 	}, 240*time.Second, 25*time.Minute)
 
 	// C18 — legacy Apply
